@@ -5,9 +5,12 @@ pub mod c02;
 pub mod c04;
 pub mod c05;
 pub mod c06;
+pub mod c07;
 pub mod c08;
 pub mod c09;
 pub mod c10;
+pub mod c11;
+pub mod c13;
 pub mod c14;
 pub mod c15;
 pub mod c20;
@@ -20,9 +23,12 @@ pub const CHECKS: &[(&str, &str, RunFn)] = &[
     ("C04", "exploration", c04::run),
     ("C05", "exploration", c05::run),
     ("C06", "exploration", c06::run),
+    ("C07", "exploration", c07::run),
     ("C08", "fault_enumeration", c08::run),
     ("C09", "exploration", c09::run),
     ("C10", "exploration", c10::run),
+    ("C11", "exploration", c11::run),
+    ("C13", "exploration", c13::run),
     ("C14", "exploration", c14::run),
     ("C15", "exploration", c15::run),
     ("C20", "exploration", c20::run),
